@@ -180,3 +180,42 @@ pub fn kbdlevel_case<const N: usize, const D: usize>(table: &Table) {
     }
     std::mem::forget(ev);
 }
+
+/// kitty graphics response `APC G i=<id> ; <message> ST` with a one digit id and a three
+/// character message (any printable ASCII, so `;` and `,` and `=` included): the event carries
+/// exactly the id and, since the message is not `OK`, exactly the message text
+pub fn kittyimg_case(table: &Table) {
+    let mut data = [0u8; 12];
+    data[0] = 0x1b;
+    data[1] = b'_';
+    data[2] = b'G';
+    data[3] = b'i';
+    data[4] = b'=';
+    let id = digits::<1>(&mut data, 5);
+    data[6] = b';';
+    let msg: [u8; 3] = any();
+    assume(msg[0] >= 0x20 && msg[0] < 0x7f && msg[1] >= 0x20 && msg[1] < 0x7f && msg[2] >= 0x20 && msg[2] < 0x7f);
+    data[7] = msg[0];
+    data[8] = msg[1];
+    data[9] = msg[2];
+    data[10] = 0x1b;
+    data[11] = b'\\';
+    assert!(table.accepts(&data), "C04: well-formed graphics response not recognised");
+    let ev = dh::event_matcher_decode(5, &data);
+    witness!(msg[1] == b';', "message containing the separator");
+    match &ev {
+        Some(TerminalEvent::KittyImage { id: got_id, placement, error }) => {
+            assert!(*got_id == id as u64 && placement.is_none(), "C04: graphics response decoded to another id");
+            match error {
+                Some(text) => {
+                    let t = text.as_bytes();
+                    assert!(t.len() == 3 && t[0] == msg[0] && t[1] == msg[1] && t[2] == msg[2],
+                            "C04: graphics response message differs from the transmitted text");
+                }
+                None => assert!(false, "C04: error message of a graphics response lost"),
+            }
+        }
+        _ => assert!(false, "C04: graphics response not decoded"),
+    }
+    std::mem::forget(ev);
+}
